@@ -6,7 +6,8 @@ prop, adir, mk, log = sys.argv[1:5]
 extra = sys.argv[5:]
 missed = extra[extra.index("--missed-first") + 1] if "--missed-first" in extra else None
 chk = extra[extra.index("--check") + 1] if "--check" in extra else prop
-d = "/verif/seeded/%s-%s%s" % (prop, mk, "" if chk == prop else "-by-" + chk)
+label = extra[extra.index("--label") + 1] if "--label" in extra else mk
+d = "/verif/seeded/%s-%s%s" % (prop, label, "" if chk == prop else "-by-" + chk)
 os.makedirs(d, exist_ok=True)
 shutil.copy(os.path.join(adir, mk + ".diff"), os.path.join(d, "patch.diff"))
 shutil.copy(os.path.join(adir, mk + "_demo.py"), os.path.join(d, "demo.py"))
